@@ -242,15 +242,21 @@ func (e *csEnv) judge(s csSpec, v csVerdict, p *probe, ran bool, st status, pan 
 		case s.Req.UnknownLength:
 			cls = "unknown-content-length"
 		}
+		bypassed := false
 		if !bytes.Equal(p.body, plain) {
 			k := cls
 			if k == "" {
 				k = sizeClass(len(plain))
 			}
+			// for the two special classes the whole encryption layer was skipped: the plaintext
+			// response is the same failure, not reported under a second key
+			bypassed = cls != "" && bytes.Equal(p.body, s.Req.Body)
 			viol(c, e.keyPrefix+"/encrypted-body-not-decrypted/"+k, fmt.Sprintf("handler saw %d bytes %q, the client encrypted %d bytes %q",
 				len(p.body), clip(string(p.body), 80), len(plain), clip(string(plain), 80)), csWitness(e, s, v, st.code, ran, ""))
 		}
-		if s.Req.Method != "HEAD" {
+		if bypassed {
+			e.t["cs_encryption_layer_bypassed_response_check_folded_into_body_violation"]++
+		} else if s.Req.Method != "HEAD" {
 			checkEncryptedResponse(c, e.keyPrefix, cls, v.key, p.resp, st.body, csWitness(e, s, v, st.code, ran, ""))
 		}
 	case v.ctype == "1":
